@@ -16,7 +16,7 @@ PROP = 'C20'
 LEVEL = 'model_checking'
 ASSUMPTIONS = ['elements are byte strings of the listed lengths (every length mod 4) and outpoints', 'filters in the BFS are forced small through the public attributes vData / nHashFuncs, as a wire filter would arrive']
 
-ELEMS = [b'', b'a', b'abc', b'abcd', b'abcde', C.fill(33, 2), ('outpoint', C.fill(32, 9), 1), C.fill(8, 3), b'\x00', b'\xff\xff']
+ELEMS = [b'', b'a', b'abc', b'abcd', b'abcde', C.fill(33, 2), ('outpoint', C.fill(32, 9), 1), C.fill(8, 3), b'\x00', b'\xff\xff', ('outpoint', b'\x00' * 32, 0xffffffff), C.fill(259, 4)]
 
 
 def bounds(tier):
@@ -55,7 +55,7 @@ class Murmur(Family):
     nontrivial_rule = 'length >= 1'
 
     def cases(self, shard, tier):
-        for l in range(0, 18 if tier == 'quick' else 70):
+        for l in list(range(0, 18 if tier == 'quick' else 70)) + [253, 254, 255, 256, 257, 258, 259, 260, 511, 513, 514, 515, 1021, 1022, 1023, 1025, 65535, 65537]:
             for fillv in range(4):
                 for seed in (0, 1, 0xFBA4C795, 0x7fffffff, 0x80000000, 0xffffffff):
                     yield (l, fillv, seed)
@@ -63,7 +63,7 @@ class Murmur(Family):
     def check(self, case):
         B, _ = _lib()
         l, fv, seed = case
-        data = [b'\x00' * l, b'\xff' * l, C.fill(l, 0x80), bytes(range(l))][fv]
+        data = [b'\x00' * l, b'\xff' * l, C.fill(l, 0x80), bytes(i & 0xff for i in range(l))][fv]
         want = R.murmur3(seed, data)
         got = B.MurmurHash3(seed, data)
         if got != want:
@@ -99,6 +99,9 @@ class Sizing(Family):
         want = (bytes([wb]) if wb < 253 else b'\xfd' + struct.pack('<H', wb)) + b'\x00' * wb + struct.pack('<IIB', wh, tweak, flags)
         if enc != want:
             raise Viol('serialised form of a fresh filter', want[-12:], enc[-12:])
+        back = B.CBloomFilter.deserialize(enc)
+        if bytes(back.vData) != bytes(f.vData) or (back.nHashFuncs, back.nTweak, back.nFlags) != (wh, tweak, flags) or back.serialize() != enc:
+            raise Viol('wire round trip of a fresh %d-byte filter' % wb, None, None)
         capped = (-1 / (0.4804530139182014) * n * __import__('math').log(rate)) > 36000 * 8
         return ('capped' if capped else 'uncapped'), capped
 
@@ -174,6 +177,7 @@ class WireOnly(Family):
 
 
 class Histories(BFSFamily):
+    tier = 'quick'
     name = 'insert_query_roundtrip_histories'
     nontrivial_rule = 'distinct canonical filter states (vData, nHashFuncs, nTweak, nFlags)'
     # initial data patterns: a filter can arrive from the wire with any data ("start from non-initial states too"):
@@ -187,7 +191,8 @@ class Histories(BFSFamily):
     def events(self, history):
         if not history:
             return [('cfg', i) for i in range(len(self.CONFIGS))]
-        return [('ins', i) for i in range(len(ELEMS))] + [('rt',)]
+        ins = range(len(ELEMS)) if self.tier == 'thorough' else (0, 1, 2, 3, 4, 6, 10, 11)     # every element is *queried* in every state
+        return [('ins', i) for i in ins] + [('rt',)]
 
     def initial_key(self):
         return '<init>'
